@@ -344,6 +344,17 @@ def process_batch(task: dict) -> dict:
         answers = pipe.model_answers([m["src"] for m in progs])
         wf_lines, wf_idx = [], []
         recs = []
+        # hypothesis of `liveness_sound`: the model's fuel-bounded liveness fixpoints have converged
+        st_lines, st_idx = [], []
+        for m, ans in zip(progs, answers):
+            if ans.startswith("ok ") and not m.get("near_miss"):
+                st_lines.append("stable " + enc.encode_function(m["src"], functions=gen.HELPER_PARAMS))
+                st_idx.append(m)
+        for m, a in zip(st_idx, pipe.drv.ask(st_lines)):
+            stats["liveness_fixpoints_checked"] += 1
+            if a != "true":
+                out["ties"].append({"meta": m, "tie": "the model's liveness fixpoint iteration did not converge within its fuel",
+                                    "real": None, "model": None})
         for m, ans in zip(progs, answers):
             rec = pipe.compare(m["name"], m["src"], fn, err, ans)
             recs.append(rec)
@@ -351,6 +362,16 @@ def process_batch(task: dict) -> dict:
             count_constructs(m["src"], stats)
             for f in m.get("features", []):
                 pipe.features[f] += 1
+            if not m.get("near_miss"):
+                try:
+                    import ast as _ast
+
+                    _fn = next(n for n in _ast.parse(m["src"]).body if isinstance(n, _ast.FunctionDef))
+                    for fid, pr in gen.FIXED_PREDICATES.items():
+                        if pr(_fn):
+                            stats["region_of_fixed_" + fid] += 1
+                except Exception:
+                    pass
             if m.get("near_miss"):
                 stats["near_miss_programs"] += 1
                 stats["near_miss_" + m["near_miss"]] += 1
